@@ -103,8 +103,14 @@ Lemma set_blocks_binv : forall bl s, BInv s -> bl_sub bl (blocks s) -> BInv (set
 Proof. intros bl s H S. unfold BInv in *. cbn. eapply owners_ok_sub; eauto. Qed.
 
 Ltac pc_tac :=
-  intros [c p i e h dl bf xi xp f pe ui uu ur di du dr dn px tu td uc dc rq cu ps pc0 phh t cl];
-  split; [ | intro HP; cbn in HP; subst p ]; brk2; reflexivity.
+  intro r; split; [ | let H := fresh "HP" in intro H ];
+  repeat (cbn; match goal with
+     | |- context[if ?b then _ else _] => destruct b eqn:?
+     | |- context[match ?x with CNone => _ | CValid _ => _ | CSkip => _ end] => destruct x eqn:?
+     | |- context[match ?l with [] => _ | _ :: _ => _ end] => destruct l eqn:?
+     | |- context[match ph ?r0 with PNone => _ | PHs => _ | PConn => _ end] => destruct (ph r0) eqn:?
+     end); cbn; try reflexivity; try congruence; auto;
+  try (match goal with H : ph _ = PConn |- _ => unfold is_hs, is_conn in *; rewrite H in *; discriminate end).
 
 Lemma pc_tc_add : forall k, pc (tc_add k).
 Proof. intro k. unfold pc, tc_add. pc_tac. Qed.
@@ -136,13 +142,13 @@ Proof.
   unfold on_conn, seq2, tc_add, after_piece in *. destruct (is_conn r); cbn in *; exact H.
 Qed.
 Lemma pc_hs_bytes : forall pa gpx n, pc (hs_bytes_row pa gpx n).
-Proof. intros pa gpx n. unfold pc, hs_bytes_row. dcond; pc_tac. Qed.
+Proof. intros pa gpx n. unfold pc, hs_bytes_row. pc_tac. Qed.
 Lemma pc_pex_enable : forall gpx, pc (pex_enable_row gpx).
-Proof. intros gpx. unfold pc, pex_enable_row. dcond; pc_tac. Qed.
+Proof. intros gpx. unfold pc, pex_enable_row. pc_tac. Qed.
 Lemma pc_hs_msg : forall sd fl m n len, pc (on_hs (hs_msg sd fl m n len)).
 Proof.
   intros sd fl m n len. unfold pc, on_hs, hs_msg, finish_hs, refuse_row, to_conn.
-  destruct m; dcond; pc_tac.
+  destruct m; pc_tac.
 Qed.
 #[export] Hint Resolve pc_tc_add pc_conn_msg pc_lib_msg pc_ph_valid pc_ph_skip pc_dissim pc_after pc_after_tc
   pc_hs_bytes pc_pex_enable pc_hs_msg : c16b.
@@ -229,7 +235,7 @@ Lemma with_row_other_live : forall c f s c0, (forall r, cid (fst (f r)) = cid r)
 Proof.
   intros c f s c0 Hc Hne (r & G & P). unfold with_row.
   pose proof (upd_get_other c c0 f (rows s) Hne Hc) as K.
-  destruct (upd c f (rows s)) as [[rs dv] ok]. cbn in *. exists r. rewrite K. auto.
+  destruct (upd c f (rows s)) as [[rs dv] ok]. cbn [fst rows] in *. exists r. split; auto. rewrite K. exact G.
 Qed.
 Lemma abort_row_cid : forall r, cid (fst (abort_row r)) = cid r.
 Proof. intros [c p i e h dl bf xi xp f pe ui uu ur di du dr dn px tu td uc dc rq cu ps pc0 phh t cl]. destruct p; reflexivity. Qed.
@@ -279,7 +285,7 @@ Proof.
   destruct (has_st c' TL b).
   - destruct (promote keep) as [k2 ok] eqn:E. destruct ok; cbn [trs].
     + change k2 with (fst (k2, true)). rewrite <- E. apply promote_keeps; auto.
-      intros c0 Hc. unfold P in *. cbn in *. rewrite orb_false_r in *. rewrite Hc. reflexivity.
+      all: try (intros c0 Hc; unfold P in *; cbn in *; rewrite orb_false_r in *; rewrite Hc; reflexivity).
     + apply forallb_filter2. exact K.
   - cbn [trs]. exact K.
 Qed.
